@@ -1,5 +1,6 @@
 From GV Require Import Common.Outcome C13.Model C13.Spec C13.Proofs.
 From GV Require Import C13.PipelineModel C13.PipelineSpec C13.PipelineProofs.
+From GV Require Import C13.PipelineRunModel C13.PipelineRunSpec C13.PipelineRunProofs.
 
 Theorem C13_subst_mirror_meets_spec : subst_mirror_meets_spec_stmt.
 Proof. exact subst_mirror_meets_spec. Qed.
@@ -106,3 +107,37 @@ Print Assumptions C13_rt_lexerdef_no_panic.
 Theorem C13_lexerdef_flags_needed : lexerdef_flags_needed_stmt.
 Proof. exact lexerdef_flags_needed. Qed.
 Print Assumptions C13_lexerdef_flags_needed.
+
+(* ---- per run / erroneous inputs with several equally ranked repairs (PipelineRunSpec.v; /repo ca69cd1) ---- *)
+
+Theorem C13_ct_runs_are_rt_runs : ct_runs_are_rt_runs_stmt.
+Proof. exact ct_runs_are_rt_runs. Qed.
+Print Assumptions C13_ct_runs_are_rt_runs.
+
+Theorem C13_ct_equals_rt_value : ct_equals_rt_value_stmt.
+Proof. exact ct_equals_rt_value. Qed.
+Print Assumptions C13_ct_equals_rt_value.
+
+Theorem C13_ct_equals_rt_value_refuted : ct_equals_rt_value_refuted_stmt.
+Proof. exact ct_equals_rt_value_refuted. Qed.
+Print Assumptions C13_ct_equals_rt_value_refuted.
+
+Theorem C13_graph_determined : graph_determined_stmt.
+Proof. exact graph_determined. Qed.
+Print Assumptions C13_graph_determined.
+
+Theorem C13_fixed_run_determined : fixed_run_determined_stmt.
+Proof. exact fixed_run_determined. Qed.
+Print Assumptions C13_fixed_run_determined.
+
+Theorem C13_fixed_refines_pinned : fixed_refines_pinned_stmt.
+Proof. exact fixed_refines_pinned. Qed.
+Print Assumptions C13_fixed_refines_pinned.
+
+Theorem C13_tied_keep_found_order : tied_keep_found_order_stmt.
+Proof. exact tied_keep_found_order. Qed.
+Print Assumptions C13_tied_keep_found_order.
+
+Theorem C13_aud_fixed_value : aud_fixed_value_stmt.
+Proof. exact aud_fixed_value. Qed.
+Print Assumptions C13_aud_fixed_value.
